@@ -736,7 +736,7 @@ func c37Check(w *vx.W, x c37Case, interleaveCap int) {
 		before, _ := c36Dump(&m, true)
 		packed, err := m.Pack()
 		if err != nil {
-			w.Failf("C37/repack/pack-error/"+c36ErrKind(err), "Unpack accepts the input but Pack of the result fails: %v\nmessage:\n%s\ninput (%d bytes, %s): %x", err, c36Short([]byte(before)), len(msg), x.Origin, c36Short(msg))
+			w.Failf("C37/repack/pack-error/"+c36ErrKind(err)+"/"+c37Kinds(&m), "Unpack accepts the input but Pack of the result fails: %v\nmessage:\n%s\ninput (%d bytes, %s): %x", err, c36Short([]byte(before)), len(msg), x.Origin, c36Short(msg))
 			return
 		}
 		var m2 Message
@@ -770,6 +770,26 @@ func c37Check(w *vx.W, x c37Case, interleaveCap int) {
 	}
 }
 
+// c37Kinds names the record type of the message's resources ("mixed" if several).
+func c37Kinds(m *Message) string {
+	kind := ""
+	for _, rs := range [][]Resource{m.Answers, m.Authorities, m.Additionals} {
+		for i := range rs {
+			var sb strings.Builder
+			c36DumpBody(&sb, rs[i].Body)
+			k := strings.SplitN(sb.String(), " ", 2)[0]
+			if kind != "" && kind != k {
+				return "mixed"
+			}
+			kind = k
+		}
+	}
+	if kind == "" {
+		return "no-resources"
+	}
+	return kind
+}
+
 // ---- input families -----------------------------------------------------------
 
 // c37Bases lists the base message descriptors.
@@ -782,9 +802,10 @@ func c37Bases(thorough bool) []c36Msg {
 		{K: "SVCB", N1: 3, V: 0}, {K: "SVCB", N1: 0, V: 2}, {K: "HTTPS", N1: 3, V: 1}, {K: "OPT", V: 0}, {K: "OPT", V: 1},
 		{K: "UNK", V: 0}, {K: "UNK", V: 1}, {K: "UNK", V: 3},
 	}
+	bodies = append(bodies, c36B{K: "MX", N1: 11, V: 2}, c36B{K: "CNAME", N1: 10})
 	if thorough {
 		bodies = append(bodies, c36B{K: "TXT", V: 1}, c36B{K: "SVCB", N1: 4, V: 3}, c36B{K: "OPT", V: 2}, c36B{K: "UNK", V: 2},
-			c36B{K: "NS", N1: 7}, c36B{K: "SOA", N1: 8, N2: 7, V: 0}, c36B{K: "MX", N1: 11, V: 2}, c36B{K: "CNAME", N1: 10})
+			c36B{K: "NS", N1: 7}, c36B{K: "SOA", N1: 8, N2: 7, V: 0})
 	}
 	// one question sharing a suffix with the owner, the record, and a trailing A record
 	for _, b := range bodies {
@@ -978,7 +999,7 @@ func c37GenTails(thorough bool, yield func(c37Case) bool) {
 	alpha := []byte{0x00, 0x01, 0xc0, 0x0c, 0xff, '.'}
 	maxLen := 5
 	if thorough {
-		alpha = []byte{0x00, 0x01, 0x3f, 0x40, 0xc0, 0x0c, 0xff, '.'}
+		alpha = []byte{0x00, 0x01, 0x40, 0xc0, 0x0c, 0xff, '.'}
 		maxLen = 6
 	}
 	for _, cnt := range few {
@@ -1037,7 +1058,7 @@ func c37GenOversize(yield func(c37Case) bool) {
 func TestVerif_C37(t *testing.T) {
 	vx.Run(t, "C37", func(c *vx.Ctx) {
 		th := !c.Quick()
-		c.Rule("parts: mut = every base message (one of each supported record type between a question and a trailing A record that share name suffixes, pointer-to-pointer chains, questions only, empty; thorough adds more bodies, the 254-byte name and 2-record sequences), encoded by the harness with and without RFC 1035 compression, then unmodified / truncated at every length / every byte set to {0x00,0xff,0xc0,v+1,v-1} / every compression pointer and every name start redirected to every offset 0..len+1 and 0x3fff / every RDLENGTH and section count set to boundary values; tail = header with every count pattern in {0,1,2,65535}^4 x every tail of <= 1 byte, and 15 one-hot/uniform count patterns x every tail of length 2..5 over {00,01,c0,0c,ff,'.'} (thorough: every 2-byte tail and length 3..6 over 8 symbols); oversize = 12 inputs > 64 KiB. Per input: Name.unpack/skipName at every offset (first 2048) against a reference name decoder; Unpack vs record-by-record Parser; every interleaving of the 6 per-record operations {full, skip, header+typed, header+skip, header twice+typed, header+full} while their number is <= the cap, else the 6 uniform and 6 rotating assignments; all 16 AllX/SkipAllX combinations; accepted => Pack and Unpack(Pack(m)) == m. non-trivial = at least one record was accepted by the parser")
+		c.Rule("parts: mut = every base message (one of each supported record type between a question and a trailing A record that share name suffixes, pointer-to-pointer chains, questions only, empty; thorough adds more bodies, the 254-byte name and 2-record sequences), encoded by the harness with and without RFC 1035 compression, then unmodified / truncated at every length / every byte set to {0x00,0xff,0xc0,v+1,v-1} / every compression pointer and every name start redirected to every offset 0..len+1 and 0x3fff / every RDLENGTH and section count set to boundary values; tail = header with every count pattern in {0,1,2,65535}^4 x every tail of <= 1 byte, and 15 one-hot/uniform count patterns x every tail of length 2..5 over {00,01,c0,0c,ff,'.'} (thorough: every 2-byte tail and length 3..6 over {00,01,40,c0,0c,ff,'.'}); oversize = 12 inputs > 64 KiB. Per input: Name.unpack/skipName at every offset (first 2048) against a reference name decoder; Unpack vs record-by-record Parser; every interleaving of the 6 per-record operations {full, skip, header+typed, header+skip, header twice+typed, header+full} while their number is <= the cap, else the 6 uniform and 6 rotating assignments; all 16 AllX/SkipAllX combinations; accepted => Pack and Unpack(Pack(m)) == m. non-trivial = at least one record was accepted by the parser")
 		c.Assume("a Skip method accepting a record that its parse method rejects is allowed (documented for resource headers; skips validate less); the reverse is reported")
 		c.Assume("equality of messages is semantic (nil == empty slices, Name.Data beyond Length ignored) and ignores ResourceHeader.Length, which Pack recomputes; inputs the reference name decoder would reject but Name.unpack also rejects are not compared (the implementation may be stricter, e.g. its 10-pointer limit)")
 		icap := vx.Pick(c, 40, 250)
